@@ -561,6 +561,20 @@ def r6_time_search(cx):
                construct=bad_stamped or "%d paths of a stamped line" % n_st)
     cx.require(bad_plain is None and n_pl >= 2, lp0[0], "a line without a time stamp is yielded iff lines are currently being included (continuation line); the state is left alone",
                construct=bad_plain or "%d paths of an unstamped line" % n_pl)
+    # a stamp without a year gets the year of the requested time (or the one before / after): a calendar substitution, never day arithmetic
+    for a in [x for x in walk_body(lp0[0].body) if isinstance(x, (ast.Assign, ast.AugAssign)) and any(U(t_) == "logstamp" for t_ in (x.targets if isinstance(x, ast.Assign) else [x.target]))]:
+        v = a.value
+        if isinstance(a, ast.Assign) and isinstance(v, ast.Call) and not (isinstance(v.func, ast.Attribute) and v.func.attr == "replace"):
+            continue                    # the parse of the matched text
+        sub = isinstance(a, ast.Assign) and isinstance(v, ast.Call) and isinstance(v.func, ast.Attribute) and v.func.attr == "replace" and not v.args \
+            and [k.arg for k in v.keywords] == ["year"] and "timestamp.year" in U(v.keywords[0].value)
+        arith = isinstance(a, ast.AugAssign) or any(isinstance(n, ast.BinOp) and isinstance(n.op, (ast.Add, ast.Sub)) and "logstamp" in U(n) for n in ast.walk(v))
+        if sub:
+            cx.ok(a, "the missing year is substituted as a calendar year taken from the requested time", construct=short(a, 90))
+        elif arith:
+            cx.bad(a, "the missing year is substituted as a calendar year (replace(year=...)); shifting by a fixed number of days is a day off across a leap year", construct=short(a, 90))
+        else:
+            cx.unknown(a, "cannot classify this redefinition of the log stamp")
     md = [a for a in walk_body(fn.body) if isinstance(a, ast.Assign) and U(a.targets[0]) == "match"]
     ok = len(md) == 1 and U(md[0].value) == "time_re.search(line)"
     if ok:
@@ -605,7 +619,7 @@ def run(cx):
     cx.extra["explanation"] = ("C14: dominance of validation over parsing in CommandParser, lower-case tables and case-folded haystack, class-hierarchy sweep over every CommandParser descendant "
                                "(constructor chain, context passed unchanged, extra phrases lower case), exception-escape sets of the JSON/YAML base parsers, line-search predicate, "
                                "inclusion state machine of get_after, strptime-directive regex table against the strftime value ranges (regex interpreter on the constants).")
-    cx.undecided = ["exact returned values for arbitrary documents/logs", "year-rollover arithmetic", "INFO: '%I' pattern '([0 ]?\\d|1[012])' is an ordered alternation whose first branch matches a prefix of 10-12 (only matters when %I ends the format)"]
+    cx.undecided = ["exact returned values for arbitrary documents/logs", "year-rollover decision thresholds (the 11-month window)", "INFO: '%I' pattern '([0 ]?\\d|1[012])' is an ordered alternation whose first branch matches a prefix of 10-12 (only matters when %I ends the format)"]
     mods = repo.all_modules()
     desc = command_parser_descendants(cx, mods)
     cx.guard(r1_validation_first)
